@@ -130,7 +130,28 @@ enum Op {
     CCleanPre,
     CCleanBopo,
     CReset,
+    /// chewing_config_set_int(name, value): index into CFG_NAMES, any int
+    CSetInt(u8, i32),
+    /// chewing_userphrase_add / remove (phrase, Bopomofo string)
+    CUpAdd(String, String),
+    CUpRemove(String, String),
 }
+
+const CFG_NAMES: [&str; 13] = [
+    "chewing.easy_symbol_input",
+    "chewing.esc_clear_all_buffer",
+    "chewing.space_is_select_key",
+    "chewing.auto_shift_cursor",
+    "chewing.phrase_choice_rearward",
+    "chewing.disable_auto_learn_phrase",
+    "chewing.auto_commit_threshold",
+    "chewing.candidates_per_page",
+    "chewing.language_mode",
+    "chewing.character_form",
+    "chewing.user_phrase_add_direction",
+    "chewing.conversion_engine",
+    "chewing.enable_fullwidth_toggle_key",
+];
 
 fn op_line(op: &Op) -> String {
     match op {
@@ -168,6 +189,9 @@ fn op_line(op: &Op) -> String {
         Op::CCleanPre => "ccleanpre".into(),
         Op::CCleanBopo => "ccleanbopo".into(),
         Op::CReset => "creset".into(),
+        Op::CSetInt(n, v) => format!("cseti {} {}", CFG_NAMES[(*n as usize) % 13], v),
+        Op::CUpAdd(t, b) => format!("cupadd {}|{}", cps(t), cps(b)),
+        Op::CUpRemove(t, b) => format!("cupremove {}|{}", cps(t), cps(b)),
     }
 }
 
@@ -213,6 +237,11 @@ fn parse_op(l: &str) -> Op {
         "ccleanpre" => Op::CCleanPre,
         "ccleanbopo" => Op::CCleanBopo,
         "creset" => Op::CReset,
+        "cupadd" | "cupremove" => {
+            let (t, b) = rest[0].split_once('|').unwrap();
+            if name == "cupadd" { Op::CUpAdd(from_cps(t), from_cps(b)) } else { Op::CUpRemove(from_cps(t), from_cps(b)) }
+        }
+        "cseti" => Op::CSetInt(CFG_NAMES.iter().position(|n| *n == rest[0]).unwrap() as u8, rest[1].parse().unwrap()),
         "clearsyl" => Op::ClearSyl,
         "jnext" => Op::JNext,
         "jprev" => Op::JPrev,
@@ -430,6 +459,20 @@ fn apply_c(op: &Op) -> String {
             Op::CReset => {
                 chewing_Reset(c);
                 "-".into()
+            }
+            Op::CUpAdd(t, b) | Op::CUpRemove(t, b) => {
+                let ct = std::ffi::CString::new(t.as_str()).unwrap();
+                let cb = std::ffi::CString::new(b.as_str()).unwrap();
+                let rc = if matches!(op, Op::CUpAdd(..)) {
+                    chewing_capi::userphrase::chewing_userphrase_add(c, ct.as_ptr(), cb.as_ptr())
+                } else {
+                    chewing_capi::userphrase::chewing_userphrase_remove(c, ct.as_ptr(), cb.as_ptr())
+                };
+                format!("{}", rc)
+            }
+            Op::CSetInt(n, v) => {
+                let name = std::ffi::CString::new(CFG_NAMES[(*n as usize) % 13]).unwrap();
+                format!("{}", chewing_capi::globals::chewing_config_set_int(c, name.as_ptr(), *v))
             }
             _ => "?".into(),
         }
@@ -750,14 +793,23 @@ fn observe_c(out: &mut String) {
             guard += 1;
         }
         let _ = take_conversion_log();
+        // chewing_config_get_int of every named option
+        let cfg: Vec<String> = CFG_NAMES
+            .iter()
+            .map(|n| {
+                let name = std::ffi::CString::new(*n).unwrap();
+                chewing_capi::globals::chewing_config_get_int(c, name.as_ptr()).to_string()
+            })
+            .collect();
         let _ = writeln!(
             out,
-            "OC flags={} commit={} buffer={} cands={} aux={}",
+            "OC flags={} commit={} buffer={} cands={} aux={} cfg={}",
             flags.iter().map(|f| f.to_string()).collect::<Vec<_>>().join(","),
             cps(&commit),
             cps(&buffer),
             cands.join(";"),
-            cps(&aux)
+            cps(&aux),
+            cfg.join(",")
         );
     }
 }
@@ -1089,10 +1141,15 @@ fn key_op(code: KeyCode, mods: Modifiers) -> Op {
 
 /// the C call that stands for an editor operation in a capi case (operations without a C counterpart in the modelled
 /// glue - options, engine, user phrases, queries - stay calls on the editor behind the context)
-fn to_c_op(op: Op, rng: &mut Rng) -> Op {
+fn to_c_op(op: Op, rng: &mut Rng, cur: &[u32; 14]) -> Vec<Op> {
+    vec![to_c_op1(op, rng, cur)].into_iter().flatten().collect()
+}
+
+fn to_c_op1(op: Op, rng: &mut Rng, cur: &[u32; 14]) -> Vec<Op> {
+    let one = |o: Op| vec![o];
     // KB numbers of the C API by phonetic layout number (Model/Layout.v numbering): several keyboards share a layout
     const KB_OF_LAYOUT: [&[i32]; 10] = [&[0, 6, 12, 13, 14, 15, 16], &[1, 7], &[2], &[3], &[4], &[5], &[8], &[9], &[10], &[11]];
-    match op {
+    let r = match op {
         Op::Key { code, uni, shift, ctrl, caps, num, .. } => {
             let kc = ALL_CODES[(code as usize) % 63];
             let named = matches!(kc, Esc | Enter | Del | Backspace | Tab | Left | Right | Up | Down | Home | End | PageUp | PageDown);
@@ -1143,9 +1200,40 @@ fn to_c_op(op: Op, rng: &mut Rng) -> Op {
             if o[12] == 2 {
                 o[12] = 1;
             }
-            Op::Opts(o)
+            // through chewing_config_set_int: one call per option that changes (the C value of each), now and then a
+            // value outside the option's range (rejected with -1, nothing changes)
+            let mut v: Vec<Op> = vec![];
+            let idx_of = |i: usize| -> Option<u8> { [0usize, 1, 2, 3, 4, 5, 6, 7, 8, 9, 10, 99, 11, 12].get(i).and_then(|k| if *k == 99 { None } else { Some(*k as u8) }) };
+            for i in 0..14 {
+                if o[i] != cur[i] {
+                    if let Some(n) = idx_of(i) {
+                        let val = match i {
+                            8 => 1 - o[i] as i32,      // language_mode: CHINESE_MODE = 1, SYMBOL_MODE = 0
+                            _ => o[i] as i32,
+                        };
+                        v.push(Op::CSetInt(n, val));
+                    }
+                }
+            }
+            if rng.chance(1, 6) {
+                v.push(Op::CSetInt(rng.below(13) as u8, *rng.pick(&[-1, 2, 3, 11, 40, 100, 1 << 30])));
+            }
+            return v;
         }
-        Op::Engine(k) => Op::Engine(if k == 2 { 1 } else { k }),
+        Op::Engine(k) => return one(Op::CSetInt(11, if k == 2 { 1 } else { k as i32 })),
+        // user phrases: the syllables as a Bopomofo string (now and then with stray white space or a word that does not parse)
+        Op::Learn(..) | Op::Unlearn(..) => {
+            let add = matches!(op, Op::Learn(..));
+            let (k, t) = match op {
+                Op::Learn(k, t) | Op::Unlearn(k, t) => (k, t),
+                _ => unreachable!(),
+            };
+            let mut b = k.iter().map(|s| s.to_string()).collect::<Vec<_>>().join(if rng.chance(1, 8) { "  " } else { " " });
+            if rng.chance(1, 15) {
+                b.push_str(" xx");
+            }
+            return one(if add { Op::CUpAdd(t, b) } else { Op::CUpRemove(t, b) });
+        }
         Op::Ack if rng.chance(1, 2) => {
             // new selection keys now and then (ten ASCII characters)
             let sets: [&[u8; 10]; 3] = [b"asdfghjkl;", b"1234567890", b"aoeuhtnsid"];
@@ -1157,7 +1245,8 @@ fn to_c_op(op: Op, rng: &mut Rng) -> Op {
             Op::SelKey(a)
         }
         other => other,
-    }
+    };
+    vec![r]
 }
 
 fn gen_case(rng: &mut Rng, n: usize, tier: &str, scratch: &std::path::Path, out: &mut String, stats: &mut Stats) {
@@ -1619,13 +1708,14 @@ fn gen_case(rng: &mut Rng, n: usize, tier: &str, scratch: &std::path::Path, out:
                 num: rng.chance(1, 6),
             });
         }
-        let mut ops: Vec<Op> = if capi { ops.into_iter().map(|o| to_c_op(o, rng)).collect() } else { ops };
+        let cur_opts = opts_vec(&ed.editor_options());
+        let mut ops: Vec<Op> = if capi { ops.into_iter().flat_map(|o| to_c_op(o, rng, &cur_opts)).collect() } else { ops };
         if capi && rng.chance(1, 8) {
             // context calls at any moment: keyboard type by number (valid and not), selection keys, list open / close
             let extra = match rng.below(6) {
                 0 | 1 => Op::KbType(rng.below(17) as i32),
                 2 => Op::KbType(*rng.pick(&[-1, 17, 200, 255, 256, 1000])),
-                3 => to_c_op(Op::Ack, rng),
+                3 => to_c_op(Op::Ack, rng, &cur_opts).remove(0),
                 4 => Op::COpen,
                 _ => Op::CClose,
             };
